@@ -163,6 +163,9 @@ inductive Op (K V : Type) where
 the type switch in `SexpHash.SexpString` (strings in bare quotes, symbols by name). -/
 structure Show (K V : Type) where
   sexp : K → String
+  /-- `jsonKey(key)`: the complete JSON member name, quotes included (`jsonQuote` of the text of a
+  string or symbol key, else of the printed form) -/
+  jsonKey : K → String
   inHash : K → String
   val : V → String
 
@@ -215,7 +218,7 @@ def jsonFields (h : Hash K V) : List K → Option (List String)
   | [] => some []
   | k :: r => match get? o h k with
     | none => none
-    | some v => (jsonFields h r).map (["\"" ++ sh.sexp k ++ "\":" ++ sh.val v, ", "] ++ ·)
+    | some v => (jsonFields h r).map ([sh.jsonKey k ++ ":" ++ sh.val v, ", "] ++ ·)
 
 /-- jsonHashHelper -/
 def jsonRope (h : Hash K V) : Option (List String) :=
@@ -224,7 +227,7 @@ def jsonRope (h : Hash K V) : Option (List String) :=
   else match jsonFields o sh h h.keyOrder with
     | none => none
     | some fs =>
-      let ko := h.keyOrder.flatMap (fun k => ["\"" ++ sh.sexp k ++ "\"", ", "])
+      let ko := h.keyOrder.flatMap (fun k => [sh.jsonKey k, ", "])
       some ((head ++ fs ++ ["\"zKeyOrder\":["] ++ ko).dropLast ++ ["]", "}"])
 
 /-- One builtin call: new state and what came back. -/
